@@ -77,6 +77,11 @@ Theorem C05_write32_translated : forall v : Z,
   n = Z.of_N (lenN (write32 v)) /\
   firstn (Z.to_nat n) (GoInt.apply_writes ws (repeat 0%Z 5)) = map Z.of_N (write32 v).
 Proof. exact C05_tie.tie_VarInt_WriteToBytes. Qed.
+Theorem C05_write64_translated : forall v : Z,
+  let '(n, ws) := Funcs.packet_VarLong_WriteToBytes v in
+  n = Z.of_N (len64 v) /\
+  firstn (Z.to_nat n) (GoInt.apply_writes ws (repeat 0%Z 10)) = map Z.of_N (write64 v).
+Proof. exact C05_tie.tie_VarLong_WriteToBytes. Qed.
 
 Print Assumptions C05_leb_value.
 Print Assumptions C05_leb_canonical.
@@ -97,3 +102,4 @@ Print Assumptions C05_robust64.
 Print Assumptions C05_len32_translated.
 Print Assumptions C05_len64_translated.
 Print Assumptions C05_write32_translated.
+Print Assumptions C05_write64_translated.
